@@ -244,6 +244,10 @@ func (p c03) Gen(r *simhook.Rand, tier string, idx int) harness.Scenario {
 		sc.Mode = "conc"
 	}
 	sc.Class = sc.Mode
+	long := sc.Mode == "conc" && r.Chance(1, 5)
+	if long {
+		sc.Class = "conc+long"
+	}
 	sc.Env = world.RedisCfg{Masters: 1 + r.Intn(8)}
 	sc.Env.Layout = genLayout(r, sc.Env.Masters)
 	if r.Chance(1, 3) {
@@ -291,6 +295,14 @@ func (p c03) Gen(r *simhook.Rand, tier string, idx int) harness.Scenario {
 		}
 		if sc.Mode == "conc" && r.Chance(1, 3) {
 			cs.MaxOut = 1 + r.Intn(3)
+		}
+		if long {
+			// pauses of up to 2.5 simulated minutes: the traffic overlaps the periodic slot refreshes
+			for i := range cs.Reqs {
+				if r.Chance(1, 4) {
+					cs.Reqs[i].Gap = r.Intn(150000)
+				}
+			}
 		}
 		sc.Conns = append(sc.Conns, cs)
 	}
